@@ -32,6 +32,8 @@ func main() {
 		code := cmdReplay(os.Args[2:])
 		cleanupScratch()
 		os.Exit(code)
+	case "callgraph":
+		os.Exit(cmdCallgraph(os.Args[2:]))
 	default:
 		fmt.Fprintln(os.Stderr, "unknown command", os.Args[1])
 		os.Exit(2)
